@@ -144,7 +144,19 @@ class CFG(object):
         matching node lies on a cycle of such a path (unbounded)."""
         start = start or self.entry
         goals = set(goals) if goals is not None else {self.exit}
-        fwd = self.reachable(start, skip_labels=skip_labels)
+        # goals are sinks: a path ends when it first reaches a goal
+        fwd = set()
+        stack0 = [start]
+        fwd.add(start)
+        while stack0:
+            n0 = stack0.pop()
+            if n0 in goals and n0 is not start:
+                continue
+            for s0, l0 in n0.succ:
+                if l0 in skip_labels or s0 in fwd:
+                    continue
+                fwd.add(s0)
+                stack0.append(s0)
         # backward reachability
         back = set()
         stack = [g for g in goals if g in fwd]
@@ -153,6 +165,8 @@ class CFG(object):
             n = stack.pop()
             for p, l in n.pred:
                 if l in skip_labels:
+                    continue
+                if p in goals and p is not start:
                     continue
                 if p not in back and p in fwd:
                     back.add(p)
@@ -170,6 +184,8 @@ class CFG(object):
         counter = [0]
 
         def succ_r(n):
+            if n in goals and n is not start:
+                return []
             return [s for s, l in n.succ if l not in skip_labels and s in region]
         for root in region:
             if root in index:
@@ -504,7 +520,20 @@ class _Builder(object):
         self.connect(tails, n)
         if not isinstance(st, (ast.FunctionDef, ast.AsyncFunctionDef, ast.ClassDef)):
             self.add_exc(n, st)
+        if self.is_noreturn_call(st):
+            for t, l in self.exc_targets(True):
+                g.edge(n, t, 'raise')
+            return []
         return [(n, 'next')]
+
+    def is_noreturn_call(self, st):
+        if not (isinstance(st, ast.Expr) and isinstance(st.value, ast.Call)):
+            return False
+        f = st.value.func
+        if isinstance(f, ast.Attribute) and isinstance(f.value, ast.Name) and f.value.id == 'self':
+            repo = getattr(self.fi, 'repo', None)
+            return repo is not None and f.attr in repo.noreturn_names()
+        return False
 
     def try_(self, st, tails):
         g = self.g
